@@ -1,10 +1,10 @@
 SPECIFICATION Spec
 CONSTANTS
-  Chunks <- PunctChunks
-  MaxLen = 4
+  Chunks <- DigraphChunks
+  MaxLen = 5
   MinLen = 0
-  Variants = {"plain", "splice", "splice2", "bcmt", "bcmtnl", "lcmt"}
-  VarLen = 2
+  Variants = {"plain", "splice", "bcmt"}
+  VarLen = 3
   Mode = "alpha"
   PerturbChars = {}
   Devs = {}
